@@ -9,6 +9,7 @@ import ParryModel.C11.Theorems7
 import ParryModel.C11.Theorems8
 import ParryModel.C11.Theorems9
 import ParryModel.C11.Theorems10
+import ParryModel.C11.Theorems11
 /-!
 # C11 property theorems: TriMesh derived data always match the buffers
 
